@@ -64,6 +64,19 @@ def whole_program_mutants():
     out.append(({"name": "datum_is_variant_prop"}, HEAD + "tx t(n: Int) { input source { from: Sender, datum_is: Var, } output { to: Receiver, amount: Ada(source.x), } }"))
     out.append(({"name": "utxo_ref_param_prop"}, HEAD + "tx t(r: UtxoRef) { reference x { ref: r, } output { to: Receiver, amount: Ada(1), datum: r.tx_hash, } }"))
     out.append(({"name": "anyasset_param_prop"}, HEAD + "tx t(a: AnyAsset) { output { to: Receiver, amount: a, datum: a.amount, } }"))
+    # names of every kind in the positions of top-level definitions, with the defined thing used by a transaction
+    head2 = HEAD.replace("env { e_int: Int, }", "env { e_int: Int, e_bytes: Bytes, }")
+    kinds = {"env_bytes": "e_bytes", "env_int": "e_int", "party": "Sender", "policy": "Pol", "asset": "Tok", "type": "Rec",
+             "undefined": "nowhere", "hex": "0x" + "22" * 28, "string": '"x"'}
+    for kname, sym in kinds.items():
+        uses = "tx t(n: Int) { input source { from: Sender, min_amount: fees, } output { to: Receiver, amount: Ada(1) + Tok2(n), } }"
+        out.append(({"name": f"asset_policy_{kname}"}, head2 + f"asset Tok2 = {sym}.\"t\"; " + uses))
+        out.append(({"name": f"asset_name_{kname}"}, head2 + f"asset Tok2 = 0x{'33' * 28}.{sym if kname not in ('hex', 'string') else sym}; " + uses))
+        out.append(({"name": f"asset_unused_{kname}"}, head2 + f"asset Tok2 = {sym}.\"t\"; tx t(n: Int) {{ output {{ to: Receiver, amount: Ada(n), }} }}"))
+        mint = "tx t(n: Int) { input source { from: Sender, min_amount: fees, } mint { amount: AnyAsset(Q, \"x\", n), } output { to: Q, amount: Ada(1), } }"
+        out.append(({"name": f"policy_assign_{kname}"}, head2 + f"policy Q = {sym}; " + mint))
+        out.append(({"name": f"policy_hash_{kname}"}, head2 + f"policy Q {{ hash: {sym}, }} " + mint))
+        out.append(({"name": f"policy_script_{kname}"}, head2 + f"policy Q {{ hash: 0x{'44' * 28}, script: {sym}, }} " + mint))
     return out
 
 
